@@ -188,6 +188,12 @@ func genDoc(rng *rand.Rand, class string) *csvDoc {
 			d.names[ncols-1] = d.names[0]
 			if ncols >= 3 && rng.Intn(2) == 0 {
 				d.names[1] = d.names[0]
+			} else if ncols >= 3 && rng.Intn(2) == 0 {
+				// a column that already carries a name of the form <duplicated name><digit>
+				d.names[1+rng.Intn(ncols-2)] = d.names[0] + []string{"0", "1", "00"}[rng.Intn(3)]
+				if rng.Intn(2) == 0 {
+					d.names[ncols-1], d.names[1] = d.names[1], d.names[ncols-1]
+				}
 			}
 		}
 	case 1:
